@@ -108,6 +108,22 @@ def expr_max_iterations():
         return 1000
     return int(c.group(1).replace("_", ""))
 
+def pe_chain_limit():
+    """x86_64/pe.rs: the bound on the walk over chained UNWIND_INFOs - the constant the chain counter is compared with
+    (`chain_len > LIMIT`). None if the loop compares its counter with nothing (cyclic chains would never end: S11e)."""
+    s = strip_comments(read("src/x86_64/pe.rs"))
+    m = re.search(r"chain_len\s*>=?\s*([A-Za-z_0-9]+)", s)
+    if not m:
+        return None
+    a = m.group(1)
+    if re.fullmatch(r"[0-9_]+(usize)?", a):
+        return int(a.replace("usize", "").replace("_", ""))
+    c = re.search(r"const\s+%s\s*:\s*usize\s*=\s*([0-9_]+)\s*;" % re.escape(a), s)
+    if not c:
+        fallbacks.append("PE_CHAIN_LIMIT")
+        return 32
+    return int(c.group(1).replace("_", ""))
+
 def gen_steps():
     """Atomic-step list of next_global_modules_generation().
     fetch_add(k, _) -> [FetchAdd k]; x.load(_) ... x.store(v+k, _) -> [Load; StoreLoadedPlus k];
@@ -315,6 +331,9 @@ def main():
     out.append("Definition SRC_DRAW_STEPS : list astep := [" + "; ".join(steps) + "].")
     out.append("(* eval_expr's bound on gimli's expression evaluator (None: no bound is set) *)")
     out.append("Definition EXPR_MAX_ITERATIONS : option N := %s." % ("None" if maxit is None else "Some %d" % maxit))
+    pcl = pe_chain_limit()
+    out.append("(* x86_64/pe.rs: the bound on the walk over chained unwind infos (None: the walk is not bounded) *)")
+    out.append("Definition PE_CHAIN_LIMIT : option N := %s." % ("None" if pcl is None else "Some %d" % pcl))
     text = "\n".join(out) + "\n"
     os.makedirs(os.path.dirname(OUT), exist_ok=True)
     old = None
